@@ -34,7 +34,10 @@ import (
 	"time"
 
 	"github.com/risor-io/risor"
+	"github.com/risor-io/risor/compiler"
 	"github.com/risor-io/risor/object"
+	"github.com/risor-io/risor/parser"
+	"github.com/risor-io/risor/vm"
 )
 
 type tcase struct {
@@ -44,6 +47,27 @@ type tcase struct {
 	Mode    string `json:"mode"` // "" / "cancel": explicit cancel; "deadline": the context ends with DeadlineExceeded
 	DelayUs int    `json:"delay_us"`
 	Reps    int    `json:"reps"`
+	// Warm: a history of small evaluations made in this process right before the case's own evaluation (after the GC, none
+	// in between).  Each runs to its end (its threads call wdone(); the harness waits for Done calls); its context is then
+	// left alive until the case is over ("alive"), cancelled ("cancelled") or ended like a deadline ("expired").
+	Warm []warmup `json:"warm"`
+	// NeedTicks: the scenario implies that script code calls tick(): the cancellation is issued only after that many calls
+	// were seen; if they never come (5 s) the case is reported with NOPROGRESS.
+	NeedTicks int `json:"need_ticks"`
+	// Route "vmreuse": the program is run on a VM of its own (vm.Run under the case's context; it returns and leaves threads
+	// behind that wait in wait_gate()), then the host makes the invocations Calls (vm.Call of the named global functions) on
+	// the SAME VM under another context (Ctx2: "background", or "cancelled" = cancelled after each call returned), then the
+	// gate is opened; the case's context is cancelled at the instant as usual.  What the first invocation's threads start
+	// afterwards must stop with the first context.
+	Route string   `json:"route"`
+	Calls []string `json:"calls"`
+	Ctx2  string   `json:"ctx2"`
+}
+
+type warmup struct {
+	Src  string `json:"src"`
+	End  string `json:"end"`
+	Done int    `json:"done"`
 }
 
 // goroutines already reported as parked by an earlier case of this process (they stay parked)
@@ -120,6 +144,12 @@ func stuckEvidence() string {
 
 var hangs int
 
+// histories of this process in which an evaluation's threads did not run (each costs a bounded wait)
+var warmfails int
+
+// evaluations of this process that left running script code behind
+var leaks int
+
 func errClass(err error, ctx context.Context) string {
 	if err == nil {
 		return "nil"
@@ -161,6 +191,10 @@ func runCase(c *tcase, out *bufio.Writer) {
 		if !clean || k == reps-1 {
 			if reps > 1 {
 				f := strings.Split(line, "\t")
+				if len(f) < 4 {
+					fmt.Fprintln(out, line)
+					return
+				}
 				f[3] += fmt.Sprintf(" rep=%d/%d", k, reps)
 				line = strings.Join(f, "\t")
 			}
@@ -175,7 +209,12 @@ func runOnce(c *tcase) (string, bool) {
 	runtime.GC()
 	var ticks int64
 	marked := make(chan struct{}, 1)
+	var over int32
 	tick := object.NewBuiltin("tick", func(ctx context.Context, args ...object.Object) object.Object {
+		if atomic.LoadInt32(&over) == 1 {
+			// the case has been judged: script code that is still running must not eat the processors of the next cases
+			return object.Errorf("the case is over")
+		}
 		atomic.AddInt64(&ticks, 1)
 		return object.Nil
 	})
@@ -186,6 +225,41 @@ func runOnce(c *tcase) (string, bool) {
 		}
 		return object.Nil
 	})
+	gate := make(chan struct{})
+	waitGate := object.NewBuiltin("wait_gate", func(ctx context.Context, args ...object.Object) object.Object {
+		select {
+		case <-gate:
+			return object.Nil
+		case <-ctx.Done():
+			return object.NewError(ctx.Err())
+		}
+	})
+	gStart := runtime.NumGoroutine()
+	var alive []context.CancelFunc
+	for i := range c.Warm {
+		if cf, ok := runWarm(&c.Warm[i]); !ok {
+			for _, f := range alive {
+				f()
+			}
+			// Eval returned without an error but the threads it started never reached their last statement
+			warmfails++
+			return fmt.Sprintf("%s\tWARMFAIL-%d", c.ID, i), false
+		} else if cf != nil {
+			alive = append(alive, cf)
+		}
+	}
+	defer func() {
+		// the history's contexts end with the case; their watchers are gone before the next case counts goroutines
+		for _, f := range alive {
+			f()
+		}
+		if len(alive) > 0 {
+			dl := time.Now().Add(time.Second)
+			for runtime.NumGoroutine() > gStart && time.Now().Before(dl) {
+				time.Sleep(100 * time.Microsecond)
+			}
+		}
+	}()
 	g0 := runtime.NumGoroutine()
 	var ctx context.Context
 	cctx, cancel := context.WithCancel(context.Background())
@@ -202,19 +276,40 @@ func runOnce(c *tcase) (string, bool) {
 		err error
 	}
 	done := make(chan result, 1)
+	globals := map[string]any{"tick": tick, "mark": mark, "wait_gate": waitGate, "wdone": mark}
+	reuse := c.Route == "vmreuse"
 	go func() {
-		v, err := risor.Eval(ctx, c.Src, risor.WithConcurrency(),
-			risor.WithGlobals(map[string]any{"tick": tick, "mark": mark}))
+		if reuse {
+			done <- result{nil, runReuse(ctx, c, globals, gate)}
+			return
+		}
+		close(gate)
+		v, err := risor.Eval(ctx, c.Src, risor.WithConcurrency(), risor.WithGlobals(globals))
 		done <- result{v, err}
 	}()
 	note := ""
+	if reuse {
+		// the host's own sequence (Run, the Calls, opening the gate) comes to its end first
+		select {
+		case r := <-done:
+			done <- r
+		case <-time.After(10 * time.Second):
+			hangs++
+			return fmt.Sprintf("%s\tSKIPPED-REUSE-SEQUENCE", c.ID), true
+		}
+	}
 	switch c.Instant {
 	case "burst":
 		cancel()
 	case "mark":
 		select {
 		case <-marked:
-		case r := <-done:
+		case r := <-func() chan result {
+			if reuse {
+				return nil
+			}
+			return done
+		}():
 			// the program ended before it reached mark(): report it as it is
 			done <- r
 			note = "NOMARK"
@@ -224,13 +319,30 @@ func runOnce(c *tcase) (string, bool) {
 		if c.DelayUs > 0 {
 			time.Sleep(time.Duration(c.DelayUs) * time.Microsecond)
 		}
+		if note == "" && c.NeedTicks > 0 {
+			dl := time.Now().Add(5 * time.Second)
+			for atomic.LoadInt64(&ticks) < int64(c.NeedTicks) {
+				if time.Now().After(dl) {
+					note = "NOPROGRESS"
+					break
+				}
+				time.Sleep(50 * time.Microsecond)
+			}
+		}
 	}
-	if note == "" {
+	if reuse && note == "NOMARK" {
+		// Run has returned long ago; its threads did not get to mark() after the gate was opened
+		note = "NOPROGRESS"
+	}
+	if note == "" || note == "NOPROGRESS" {
 		select {
 		case r := <-done:
 			// the evaluation had already returned when the cancellation was due: its result is not one of a cancelled run
 			done <- r
-			note = "EARLYDONE"
+			if note != "" {
+				note += " "
+			}
+			note += "EARLYDONE"
 		default:
 		}
 	}
@@ -284,6 +396,10 @@ func runOnce(c *tcase) (string, bool) {
 	tB := atomic.LoadInt64(&ticks)
 	time.Sleep(15 * time.Millisecond)
 	tC := atomic.LoadInt64(&ticks)
+	atomic.StoreInt32(&over, 1)
+	if tB != tC {
+		leaks++
+	}
 	gA := runtime.NumGoroutine()
 	val := "-"
 	ec := "-"
@@ -302,8 +418,96 @@ func runOnce(c *tcase) (string, bool) {
 	if stuck == "" {
 		stuck = "-"
 	}
-	clean := returned && settled && tB == tC && (ec == "ctx" || strings.Contains(ec, "EARLYDONE") || strings.Contains(ec, "NOMARK"))
+	clean := returned && settled && tB == tC && !strings.Contains(ec, "NOPROGRESS") && (ec == "ctx" || strings.Contains(ec, "EARLYDONE") || strings.Contains(ec, "NOMARK"))
 	return fmt.Sprintf("%s\t%v\t%d\t%s\t%s\t%d\t%d\t%d\t%d\t%d\t%v\t%s", c.ID, returned, lat.Microseconds(), ec, val, tRet, tB, tC, g0, gA, settled, stuck), clean
+}
+
+// runWarm makes one evaluation of the history: it runs to its end, the threads it started have finished (each calls wdone()
+// as its last action; a short pause lets the goroutine itself end), then its context ends in the way asked for.  The
+// returned cancel function is non-nil when the context stays alive.
+func runWarm(w *warmup) (context.CancelFunc, bool) {
+	var n int64
+	noop := object.NewBuiltin("noop", func(ctx context.Context, args ...object.Object) object.Object { return object.Nil })
+	wdone := object.NewBuiltin("wdone", func(ctx context.Context, args ...object.Object) object.Object {
+		atomic.AddInt64(&n, 1)
+		return object.Nil
+	})
+	cctx, cancel := context.WithCancel(context.Background())
+	var ctx context.Context = cctx
+	if w.End == "expired" {
+		ctx = deadlineCtx{cctx}
+	}
+	errc := make(chan error, 1)
+	go func() {
+		_, err := risor.Eval(ctx, w.Src, risor.WithConcurrency(),
+			risor.WithGlobals(map[string]any{"tick": noop, "mark": noop, "wait_gate": noop, "wdone": wdone}))
+		errc <- err
+	}()
+	select {
+	case err := <-errc:
+		if err != nil {
+			cancel()
+			return nil, false
+		}
+	case <-time.After(10 * time.Second):
+		cancel()
+		return nil, false
+	}
+	dl := time.Now().Add(4 * time.Second)
+	for atomic.LoadInt64(&n) < int64(w.Done) {
+		if time.Now().After(dl) {
+			cancel()
+			return nil, false
+		}
+		time.Sleep(50 * time.Microsecond)
+	}
+	time.Sleep(2 * time.Millisecond)
+	if w.End == "alive" {
+		return cancel, true
+	}
+	cancel()
+	time.Sleep(time.Millisecond) // the watcher of the ended context has done its work
+	return nil, true
+}
+
+// runReuse: the embedding that runs a program once on a VM and afterwards serves calls on the same VM
+func runReuse(ctx context.Context, c *tcase, globals map[string]any, gate chan struct{}) error {
+	cfg := risor.NewConfig(risor.WithConcurrency(), risor.WithGlobals(globals))
+	ast, err := parser.Parse(ctx, c.Src)
+	if err != nil {
+		return err
+	}
+	code, err := compiler.Compile(ast, cfg.CompilerOpts()...)
+	if err != nil {
+		return err
+	}
+	machine := vm.New(code, cfg.VMOpts()...)
+	if err := machine.Run(ctx); err != nil {
+		return err
+	}
+	for _, name := range c.Calls {
+		obj, err := machine.Get(name)
+		if err != nil {
+			return err
+		}
+		fn, ok := obj.(*object.Function)
+		if !ok {
+			return fmt.Errorf("reuse: %s is not a function", name)
+		}
+		ctx2, cancel2 := context.WithCancel(context.Background())
+		var use context.Context = ctx2
+		if c.Ctx2 == "background" {
+			use = context.Background()
+		}
+		_, err = machine.Call(use, fn, nil)
+		cancel2()
+		if err != nil {
+			return fmt.Errorf("reuse: call %s: %v", name, err)
+		}
+	}
+	time.Sleep(time.Millisecond)
+	close(gate)
+	return nil
 }
 
 func main() {
@@ -321,8 +525,12 @@ func main() {
 			fmt.Fprintf(out, "?\tBADJSON %v\n", err)
 			continue
 		}
-		if hangs >= 2 {
+		if hangs >= 2 || leaks >= 8 {
 			fmt.Fprintf(out, "%s\tSKIPPED-AFTER-HANG\n", c.ID)
+			continue
+		}
+		if warmfails >= 2 && len(c.Warm) > 0 {
+			fmt.Fprintf(out, "%s\tSKIPPED-AFTER-WARMFAIL\n", c.ID)
 			continue
 		}
 		runCase(&c, out)
